@@ -76,7 +76,6 @@ def get_retval_annotation(annotation: Any) -> str:
     except:  # noqa: E722
         return ""
 
-    print("retval:", repr(annotation), "-", repr(typestr))
     return " -> %s" % typestr if typestr else ""
 
 
